@@ -10,6 +10,7 @@ import (
 	"bytes"
 	"fmt"
 	"net"
+	"os"
 	"strings"
 	"time"
 
@@ -698,6 +699,9 @@ func runTables(r *ev.Run, only int) {
 		}
 		outcomes := map[string]bool{}
 		dl := 60 * time.Second
+		if d, err := time.ParseDuration(os.Getenv("VERIF_C15_DEADLINE")); err == nil {
+			dl = d
+		}
 		if r.Thorough() {
 			dl = 12 * time.Minute
 		}
